@@ -46,6 +46,8 @@ def enc14_table(ctx):
 
 def c07(ctx):
     mc_cc14(ctx)
+    if not ctx.quick:
+        run_apalache(ctx, "Ind_Cc14", theorem="RtInv")     # round trip for ALL messages in ALL consistent states
     p14 = edges_cc14(ctx, impls=("raw",))
     run_script(ctx, sweep_roundtrip(ctx, variant_paths(p14), "cc14", 0, 1500), "roundtrip-in-every-explored-state")
     run_script(ctx, enc14_table(ctx), "encode-table-cc14")
@@ -93,6 +95,8 @@ def c11(ctx):
 
 def c10(ctx):
     mc_pn(ctx, with_run=True)
+    if not ctx.quick:
+        run_apalache(ctx, "Ind_Pn", theorem="RtInv")
     ppn = edges_pn(ctx, impls=("raw",))
     run_script(ctx, sweep_roundtrip(ctx, variant_paths(ppn), "pn", 0, 1500), "roundtrip-in-every-explored-state")
     res, trace = run_script(ctx, gen.roundtrip_pn(ctx.rng, ctx.q(6000, 60000)), "roundtrip-pn")
